@@ -1215,7 +1215,8 @@ fn main() {
 
     // model
     if want("model") {
-        let per_cap = args.n(200, if caps.len() > 8 { 1_500 } else { 4_000 });
+        // Miri interprets ~1000x slower: its lane passes an absolute case count instead of a scale
+        let per_cap = if cfg!(miri) { args.get_u64("miri-cases", 4) } else { args.n(3_000, 12_000) };
         let n_ops = if cfg!(miri) { 24 } else { 80 };
         let total = per_cap * caps.len() as u64;
         let caps = &caps;
@@ -1260,7 +1261,7 @@ fn main() {
             }
         }
         if want("refill") {
-            let n = args.n(48, 480);
+            let n = args.n(96, 1_600);
             let caps = &caps;
             par_cases(&mut r, &args, n, |i, r| {
                 let cap = caps[(i % caps.len() as u64) as usize];
@@ -1268,7 +1269,7 @@ fn main() {
             });
         }
         if want("conc") {
-            let n = args.n(30, 400);
+            let n = args.n(80, 800);
             let ops_per = if args.thorough() { 1_500 } else { 400 };
             for i in 0..n {
                 let cap = caps[(i % caps.len() as u64) as usize];
